@@ -479,7 +479,12 @@ func judgeClient(sc *cScript, obs *cObs, prop string) (out []jv) {
 		if sc.Deadline {
 			wantCtx = context.DeadlineExceeded
 		}
-		if obs.Ret != wantCtx {
+		// a request may still be sent (timer and context are both ready); if that RoundTrip fails with an
+		// error of its own, both reasons are true, as in "ctx_or_terr" below
+		var ce0 *sse.ConnectionError
+		ownTErr := len(obs.Attempts) == 1 && len(sc.Attempts) > 0 && sc.Attempts[0].CancelInRT && sc.Attempts[0].RTErrAfterCancel &&
+			errors.As(obs.Ret, &ce0) && obs.TErrs[0] != nil && errors.Is(obs.Ret, obs.TErrs[0])
+		if obs.Ret != wantCtx && !ownTErr {
 			out = append(out, jvf([]string{"ctx_error_not_returned"}, "context cancelled before Connect but it returned %v", obs.Ret))
 		}
 		if len(obs.Attempts) > 1 {
